@@ -312,7 +312,9 @@ func (vc *VC) runTop() {
 	cov := &Obligation{Name: vc.fnName() + "/cover/requires-satisfiable", Kind: "cover", Func: vc.fnName(), Prefix: len(vc.asserts), Guard: "true", Goal: "true", vc: vc, Cover: true}
 	vc.obls = append(vc.obls, cov)
 
+	vc.topFrame = fr
 	fr.run(st)
+	fr.finishPanics()
 
 	if len(fr.rets) == 0 {
 		return
@@ -390,7 +392,7 @@ func (vc *VC) frameObligations(exit *State, binds map[string]Val) {
 		if name == "CLK" || whole[name] {
 			continue
 		}
-		if strings.HasPrefix(name, "Gh_") {
+		if strings.HasPrefix(name, "Gh_") || strings.HasPrefix(name, "DF_") {
 			continue
 		}
 		a, b := vc.get(vc.entry, name), vc.get(exit, name)
